@@ -173,8 +173,14 @@ func DrawBaseCfg(env *Env) EngineCfg {
 		// at the same simulated instant (HeartBtInt, 1.2 x HeartBtInt, LogonTimeout, LogoutTimeout all
 		// differ for every HeartBtInt the workloads use): Go's select picks at random between two ready
 		// timer events, which the engine itself does not order either.
-		c.ReconnectInterval = 2
-		c.LogonTimeout = 11
+		//
+		// ReconnectInterval > LogonTimeout on purpose: the engine never cancels the logon-timeout
+		// timer of an earlier connection attempt, so with a shorter reconnect interval a stale timer
+		// can fire into a later attempt and, when attempts fail in a row, keep doing so (each failed
+		// attempt arms another timer). No listed property forbids that, and workloads that need working
+		// reconnects must not depend on it.
+		c.ReconnectInterval = 8
+		c.LogonTimeout = 4
 		c.LogoutTimeout = 7
 	}
 	return c
